@@ -186,6 +186,7 @@ SentArgsOk(e, dj) ==        \* every logged argument equals the member of the sa
 CtxOk(e) ==
     /\ e.ctx.height = fx.env.height /\ e.ctx.contract = fx.env.contract
     /\ e.ctx.token = fx.env.token /\ e.ctx.nonce = fx.env.nonce
+    /\ e.ctx.tx = fx.env.tx                      \* the environment whole: also the transaction it says the call runs in (or none)
     /\ IF e.kind \in {"exec", "instantiate"}
        THEN e.ctx.sender = fx.env.sender /\ e.ctx.funds = fx.env.funds
        ELSE e.ctx.sender = "" /\ e.ctx.funds = <<>>
